@@ -10,6 +10,7 @@ pub mod blocks;
 pub mod hexio;
 pub mod asm;
 pub mod annot;
+pub mod expr;
 
 pub fn unhex(s: &str) -> Vec<u8> {
     if s == "-" {
@@ -66,6 +67,9 @@ pub fn dispatch(fields: &[&str]) -> String {
             return r;
         }
         if let Some(r) = annot::dispatch(cmd, args) {
+            return r;
+        }
+        if let Some(r) = expr::dispatch(cmd, args) {
             return r;
         }
         format!("err:unknown-command:{}", cmd)
